@@ -35,6 +35,11 @@ Idle == [k |-> 0, st |-> "idle", res |-> FALSE]
 AInit == set = {} /\ pend = [t \in Threads |-> Idle]
 Quiet == \A t \in Threads : pend[t].st = "idle"
 
+\* S \cup {k} and S \ {k}, written as set constructors so that TLC stores a flat enumerated set: it represents
+\* S \cup T lazily, and 10^4 nested lazy unions overflow its stack
+Add(S, k) == {x : x \in S \cup {k}}
+Del(S, k) == {x \in S : x # k}
+
 (* ------------------------- overlapping insertions ---------------------- *)
 Call(t, k) == /\ pend[t].st = "idle"
               /\ pend' = [pend EXCEPT ![t] = [k |-> k, st |-> "called", res |-> FALSE]]
@@ -42,15 +47,15 @@ Call(t, k) == /\ pend[t].st = "idle"
 \* the linearisation point = the atomic abstract operation  Insert(k) -> BOOLEAN
 Lin(t) == /\ pend[t].st = "called"
           /\ pend' = [pend EXCEPT ![t] = [@ EXCEPT !.st = "done", !.res = (pend[t].k \notin set)]]
-          /\ set' = set \cup {pend[t].k}
+          /\ set' = Add(set, pend[t].k)
 Ret(t, k, ok) == /\ pend[t].st = "done" /\ pend[t].k = k /\ pend[t].res = ok
                  /\ pend' = [pend EXCEPT ![t] = Idle]
                  /\ UNCHANGED set
 
 (* ------------------------- sequential operations ----------------------- *)
-Insert(k, ok) == /\ Quiet /\ ok = (k \notin set) /\ set' = set \cup {k} /\ UNCHANGED pend
+Insert(k, ok) == /\ Quiet /\ ok = (k \notin set) /\ set' = Add(set, k) /\ UNCHANGED pend
 \* erase returns the number of removed elements (0 or 1 for a set)
-Erase(k, n)   == /\ Quiet /\ n = (IF k \in set THEN 1 ELSE 0) /\ set' = set \ {k} /\ UNCHANGED pend
+Erase(k, n)   == /\ Quiet /\ n = (IF k \in set THEN 1 ELSE 0) /\ set' = Del(set, k) /\ UNCHANGED pend
 
 Min(S) == CHOOSE x \in S : \A y \in S : x <= y
 \* results of find / lower_bound / upper_bound: <<>> = end(), <<v>> = an iterator referencing v
